@@ -307,6 +307,8 @@ class EWorld(seq.World):
         snap['orphans'] = [(r['i'], r['load']) for r in orphans]
         snap['pending_orphan'] = any(r['p'] == p for r in orphans)
         snap['ondemand'] = self.ondemand_load(a, p)
+        if snap['dist'] == 0 and snap['cmd'][3] is not None:
+            self.anomaly = True      # hypothesis of the theorems: a command of a distributed job has no identifier yet
         frame = Frame(snap, job)
         self.frames.append(frame)
         return frame
